@@ -59,7 +59,7 @@ def run(ctx):
         for rep, want, lab in ((Fraction(1), 1, "sample > value"), (Fraction(0), 1, "sample == value"), (Fraction(-1), 0, "sample < value")):
             try:
                 it = Interp({"value": Poly.atom("V")}, {"samples": Poly.atom("S")}, {"S": rep, "V": Fraction(0)}, cls_name=ed.name)
-                v = to_poly(it.eval(w))
+                v = to_poly(it.eval(A.expand_locals(pv.node, w)))  # named intermediates (`one = tensorlib.ones(())`) in their place
                 if v == Poly.const(want):
                     ctx.holds(r1, f"{CALC}::EmpiricalDistribution.pvalue [{lab}]", f"indicator = {want}")
                 else:
